@@ -151,6 +151,18 @@ func (vf *VFlow) forEachElem(v ssa.Value, f func(elem ssa.Value), depth int) boo
 		return true // nil slice
 	case *ssa.Slice:
 		return vf.forEachElem(x.X, f, depth+1)
+	case *ssa.MakeSlice:
+		// s := make([]T, n); for i := range ... { s[i] = v }
+		for _, ref := range *x.Referrers() {
+			if ia, isIA := ref.(*ssa.IndexAddr); isIA && ia.X == ssa.Value(x) {
+				for _, r2 := range *ia.Referrers() {
+					if st, isSt := r2.(*ssa.Store); isSt && st.Addr == ssa.Value(ia) {
+						f(st.Val)
+					}
+				}
+			}
+		}
+		return true
 	case *ssa.Alloc:
 		// backing array of a literal, or a local variable holding a slice
 		ok := true
